@@ -64,7 +64,9 @@ func isVisited(path string, visitedSchemas map[string]struct{}) bool {
 		parent = path[0:i]
 		suffix = path[i+1:]
 
-		if strings.HasSuffix(parent, suffix) {
+		// the parent path ends with the same sequence of segments (compared on whole segments:
+		// "definitions.data" does not end with the segment "a")
+		if parent == suffix || strings.HasSuffix(parent, "."+suffix) {
 			return true
 		}
 	}
